@@ -5,6 +5,7 @@ import (
 	"log/slog"
 	"net/http"
 	"reservoir/utils/typeutils"
+	"strings"
 	"time"
 )
 
@@ -106,11 +107,15 @@ func ParseHeaderDirective(header http.Header) *HeaderDirectives {
 				slog.Debug("Error parsing Range header", "error", err, "value", value)
 			}
 		case "Cache-Control":
-			if cc, err := parseCacheControl(value); err == nil {
-				hd.CacheControl.value = typeutils.Some(cc)
-			} else {
+			// A field sent on several lines is equivalent to one comma-separated list.
+			cc, err := parseCacheControl(strings.Join(values, ","))
+			if err != nil {
+				// The header stays in force (e.g. a no-store next to a malformed max-age);
+				// what could not be understood makes the response uncacheable.
 				slog.Debug("Error parsing Cache-Control header", "error", err, "value", value)
+				cc.noCache = true
 			}
+			hd.CacheControl.value = typeutils.Some(cc)
 		case "Expires":
 			if t, err := time.Parse(http.TimeFormat, value); err == nil {
 				hd.Expires.value = typeutils.Some(t)
